@@ -1191,7 +1191,13 @@ class Interp:
         raise Unsupported('starred expression', node)
 
     def e_ListComp(self, node, env):
-        return list(self.comprehension(node, env))
+        r = self.comprehension(node, env)
+        from .arrays import SArr
+        from .pipes import SPipe
+        from .seqs import SSeq
+        if isinstance(r, (SArr, SPipe, SSeq)):
+            return r
+        return list(r)
 
     def e_GeneratorExp(self, node, env):
         # python evaluates the outermost iterable when the generator is created
@@ -1251,6 +1257,9 @@ class Interp:
                 first = inner if isinstance(inner, (SPipe, SSeq)) else list(inner)
             if isinstance(first, SPipe):
                 return comprehension_over_pipe(self, node, env, first)
+            from .arrays import SArr, comprehension_over_array
+            if isinstance(first, SArr):
+                return comprehension_over_array(self, node, env, first)
             if isinstance(first, SSeq):
                 return comprehension_over_sseq(self, node, env, first)
             cenv = Env({}, env, env.module)
@@ -2099,8 +2108,12 @@ class LazyGen:
             r = self.iterator()
             from .seqs import SSeq
             from .pipes import SPipe
+            from .arrays import SArr
             if isinstance(r, SPipe):
                 raise Unsupported('concrete iteration over an unbounded range pipeline', self.node)
+            if isinstance(r, SArr):
+                self._items = r
+                return r.hm_iterate(self.interp, self.node)
             if isinstance(r, SSeq):
                 self._items = r
                 return r.concretize_iter(self.interp, self.node)
